@@ -11,6 +11,77 @@ SAMPLE_KEYS = ("latency", "fate_weights", "t_adv", "blackouts", "rebinds", "cc",
                "server_cert", "faults_on")
 
 
+def run_resumed(seed, replay, profile2, make_oracles2, variant, early_writes=(), extra_summary=None):
+    """The `restart` fault: connection 1 (fault-free) obtains a session ticket, the application keeps
+    it, connection 2 resumes with it and optionally writes 0-RTT data at t=0. Oracles attach to
+    connection 2. Returns an Outcome."""
+    ch = Chooser(seed, replay)
+    store = {"tickets": {}, "client": []}
+
+    def kwargs():
+        return {
+            "client_kwargs": {"session_ticket_handler": lambda t: store["client"].append(t)},
+            "server_kwargs": {"session_ticket_handler": lambda t: store["tickets"].__setitem__(t.ticket, t),
+                              "session_ticket_fetcher": lambda label: store["tickets"].pop(label, None)},
+        }
+
+    base = {"versions": False, "cipher_suites": False, "server_cert": "server_ed25519", "small_limits": 0.0,
+            "secrets_log": True, "idle_timeouts": (20.0,)}
+    prof1 = dict(base, fault_free=True, max_ops=2, fair_budget=30.0, drain=1.0)
+    prof1.update(kwargs())
+    out = Outcome(seed)
+    sim1 = TransportSim(ch, prof1, [WireMonitor()])
+    sim1.run()
+    if not store["client"]:
+        out.summary = dict(sim1.summary(), reason="no-ticket", inconclusive=True)
+        out.choices = ch.dump()
+        return out
+    ticket = store["client"][-1]
+
+    def configure(sim, conf, is_client):
+        if is_client:
+            conf.session_ticket = ticket
+        hook = profile2.get("configure2")
+        if hook:
+            hook(sim, conf, is_client)
+
+    def schedule(sim):
+        for size, fin in early_writes:
+            sim.k.at(0.0, sim._run_op, 0, "write", 11, size, fin, tag="app")
+
+    prof2 = dict(base, wall_base=100.0, configure=configure, schedule_extra=schedule)
+    prof2.update(profile2)
+    prof2.update(kwargs())
+    mon = WireMonitor()
+    oracles = [mon] + list(make_oracles2(mon))
+    sim2 = TransportSim(ch, prof2, oracles)
+    try:
+        reason = sim2.run()
+    except Violation as v:
+        out.violation = violation_dict(v, sim2.k)
+        reason = "violation"
+    s = sim2.summary()
+    s["reason"] = reason
+    s["inconclusive"] = reason == "step-cap"
+    s["aborted"] = reason == "api-exception"
+    s.setdefault("extra", {}).update(mon.stats())
+    try:
+        s["probes"]["early_data_accepted"] = int(bool(sim2.client.conn.tls.early_data_accepted))
+    except Exception:
+        pass
+    for name, n in mon.frame_counts.items():
+        s["probes"]["frame:" + name] = n
+    if extra_summary is not None:
+        extra_summary(sim2, s)
+    out.summary = s
+    out.choices = ch.dump()
+    out.nontrivial = s["datagrams"] > 4
+    out.signature = s["sig"] + ":" + stable_hash([o[1:5] for o in sim2.op_log]) + ":resumed"
+    out.sample = {"seed": seed, "variant": variant, "early_writes": list(early_writes), "ops": sim2.op_log[:8],
+                  "fired": s["fired"], "datagrams": s["datagrams"], "end": reason}
+    return out
+
+
 def run_transport(seed, profile, make_oracles, replay=None, monitor=False, strict_roundtrip=False,
                   variant=None, extra_summary=None, sim_class=TransportSim, foreign_api_exception="abort"):
     """One simulated run. `make_oracles(monitor)` returns the property's oracles.
